@@ -1562,7 +1562,15 @@ pub fn generate(seed: u64, run: u64, prop: &str) -> Generated {
             let other = numeric.iter().find(|(q2, c2)| *q2 != q && range_of(c2).map_or(false, |r| r.0.abs().max(r.1.abs()) <= 1.0e6));
             // (a denominator whose declared range excludes zero, on either side)
             let positive = numeric.iter().find(|(q2, c2)| *q2 != q && range_of(c2).map_or(false, |r| (r.0 > 0.0 || r.1 < 0.0) && r.0.abs().max(r.1.abs()) <= 1.0e6));
-            let (expr, scale, name) = match rme.below(18) {
+            let a_text = cols.iter().find(|(qt, ct)| !is_id(qt) && matches!(ct.ty, ColType::TextValues(_) | ColType::Text));
+            let (expr, scale, name) = match rme.below(22) {
+                18 => (format!("round({} * 0.37, 1)", q), 0.37 * m + 0.05, "round1"),
+                19 => (format!("trunc({} * 0.37)", q), 0.37 * m + 1.0, "trunc"),
+                20 => (format!("round({} * 0.37)", q), 0.37 * m + 1.0, "round0"),
+                21 => match a_text {
+                    Some((qt, _)) => (format!("char_length({}) + {}", qt, q), m + 8.0, "char_length"),
+                    None => continue,
+                },
                 16 => (format!("sin({})", q), 1.0, "sin"),
                 17 => (format!("cos({})", q), 1.0, "cos"),
                 14 | 15 => match positive {
